@@ -12,7 +12,7 @@ From Coq Require Import Reals ZArith List Bool Lra Lia.
 From Flocq Require Import Core.Raux.
 From CB Require Import Base.Vec3 Model.C03_Relations Proofs.C03_GeomSeries Proofs.C03_Relations
   Proofs.C03_Plans Proofs.C03_Invert Proofs.C03_InvertPlans.
-From CB Require Import Gen.C03.RelTable.
+From CB Require Import Gen.C03.RelTable Gen.C03.Source Proofs.C03_SourceEq.
 Import ListNotations.
 Open Scope R_scope.
 
@@ -277,6 +277,82 @@ Proof.
   - exact (reject_ratios tau bq L).
 Qed.
 
+(** ** the model is the source.  Gen/C03/Source.v is the translation (harness/props/C03_translate.py, python ast ->
+    Gallina, fail closed) of relations.py as it is in the working tree NOW; each of its twelve functions equals the
+    model's for all arguments, the rejected ones included ([None] = python raises).  The three functions that call
+    scipy.optimize.brentq take scipy's answer as an argument; the model's oracle is then the one that answers exactly
+    where the python text reaches the call ([guarded]); it is sound when scipy's is, and it is sound when scipy
+    returns a positive zero of the translated residual lambda ([returns_roots]).  The three count relations take
+    np.log(c2c): its being non-zero follows from [tol < |c2c - 1|] for a tolerance >= 0 (the tabulated one is > 0).
+    Rewriting with these equations turns every theorem of this file into a theorem about the translated text. *)
+Definition C03_source_is_model_stmt : Prop :=
+  forall tol L,
+  (forall n r, src_get_start_size__count__c2c_expansion tol L n r = start_count_c2c tol L n r) /\
+  (forall e E, src_get_start_size__end_size__total_expansion tol L e E = start_end_total L e E) /\
+  (forall s E, src_get_end_size__start_size__total_expansion tol L s E = end_start_total L s E) /\
+  (0 <= tol -> forall s r, src_get_count__start_size__c2c_expansion tol L s r = count_start_c2c tol L s r) /\
+  (0 <= tol -> forall e r, src_get_count__end_size__c2c_expansion tol L e r = count_end_c2c tol L e r) /\
+  (0 <= tol -> forall E r, src_get_count__total_expansion__c2c_expansion tol L E r = count_total_c2c tol L E r) /\
+  (forall n E, src_get_c2c_expansion__count__total_expansion tol L n E = c2c_count_total L n E) /\
+  (forall n r, src_get_total_expansion__count__c2c_expansion tol L n r = total_count_c2c L n r) /\
+  (forall s e, src_get_total_expansion__start_size__end_size tol L s e = total_start_end L s e) /\
+  (forall bq E s, src_get_count__total_expansion__start_size tol (bq_count bq L E s) L E s
+                  = count_total_start tol (guarded tol bq) L E s) /\
+  (forall bq n s, src_get_c2c_expansion__count__start_size tol (bq_c2c_start bq L n s) L n s
+                  = c2c_count_start tol (guarded tol bq) L n s) /\
+  (forall bq n e, src_get_c2c_expansion__count__end_size tol (bq_c2c_end bq L n e) L n e
+                  = c2c_count_end tol (guarded tol bq) L n e) /\
+  (forall bq, brentq_sound bq -> brentq_sound (guarded tol bq)) /\
+  (forall bq, returns_roots tol bq -> brentq_sound (guarded tol bq)) /\
+  0 < TOL.
+Theorem C03_source_is_model : C03_source_is_model_stmt.
+Proof.
+  intros tol L. repeat match goal with |- _ /\ _ => split end; intros.
+  - apply src_start_count_c2c.
+  - apply src_start_end_total.
+  - apply src_end_start_total.
+  - apply src_count_start_c2c; assumption.
+  - apply src_count_end_c2c; assumption.
+  - apply src_count_total_c2c; assumption.
+  - apply src_c2c_count_total.
+  - apply src_total_count_c2c.
+  - apply src_total_start_end.
+  - apply src_count_total_start.
+  - apply src_c2c_count_start.
+  - apply src_c2c_count_end.
+  - apply guarded_sound; assumption.
+  - apply roots_sound; assumption.
+  - unfold TOL, dy. apply Rmult_lt_0_compat; [apply IZR_lt; reflexivity|apply powerRZ_lt; lra].
+Qed.
+
+(** how a theorem about the model is read as a theorem about the source: one relation, one plan *)
+Example source_start_size_law tol L n r s :
+  src_get_start_size__count__c2c_expansion tol L n r = Some s -> 0 < r -> (r = 1 \/ tol < Rabs (r - 1)) -> 0 <= tol ->
+  0 < L /\ (1 <= n)%Z /\ s * gsum r (Z.to_nat n) = L /\ 0 < s.
+Proof. rewrite src_start_count_c2c. apply start_count_c2c_law. Qed.
+
+(** the plan (count, start_size) written with the translated functions and scipy's own answers: the first cell
+    is the requested one (C03_size_exact_with_count read on the source) *)
+Example source_plan_count_start_law bq L n s r E e :
+  returns_roots TOL bq ->
+  src_get_c2c_expansion__count__start_size TOL (bq_c2c_start bq L n s) L n s = Some r ->
+  src_get_total_expansion__count__c2c_expansion TOL L n r = Some E ->
+  src_get_end_size__start_size__total_expansion TOL L s E = Some e ->
+  (1 <= n)%Z /\ 0 < E /\
+  ((2 <= n)%Z -> Rabs (bm_first L (Z.to_nat n) E - s) <= TOL * bm_first L (Z.to_nat n) E).
+Proof.
+  intros Hroots H1 H2 H3.
+  rewrite src_c2c_count_start in H1. rewrite src_total_count_c2c in H2. rewrite src_end_start_total in H3.
+  assert (Hp : plan_count_start TOL (guarded TOL bq) L n s
+               = Some (mk_data (Some n) (Some E) (Some r) (Some s) (Some e))).
+  { unfold plan_count_start. rewrite H1. simpl. rewrite H2. simpl. rewrite H3. reflexivity. }
+  assert (Htol : 0 <= TOL).
+  { left. unfold TOL, dy. apply Rmult_lt_0_compat; [apply IZR_lt; reflexivity|apply powerRZ_lt; lra]. }
+  destruct (plan_count_start_law TOL (guarded TOL bq) L n s _ Hp (roots_sound _ _ Hroots) Htol)
+    as [E' [Hret [Hn [HE Hsz]]]].
+  simpl in Hret. inversion Hret; subst E'. repeat split; assumption.
+Qed.
+
 (** the hypotheses are satisfiable: a sound oracle exists, the tabulated TOL is positive *)
 Example brentq_sound_example : brentq_sound (Build_brentq (fun _ _ _ => None) (fun _ _ _ => None) (fun _ _ _ => None)).
 Proof. repeat split; intros; simpl in *; discriminate. Qed.
@@ -291,7 +367,10 @@ Qed.
 Example plan_count_c2c_runs : exists d, plan_count_c2c TOL 1 10 1 = Some d.
 Proof.
   unfold plan_count_c2c, start_count_c2c, total_count_c2c, end_start_total, valid_length.
-  rewrite (Rltb_intro 0 1) by lra. simpl. eexists. reflexivity.
+  rewrite (Rltb_intro 0 1) by lra.
+  rewrite (Rltb_intro_false TOL (Rabs (1 - 1)))
+    by (replace (1 - 1) with 0 by ring; rewrite Rabs_R0; left; exact TOL_pos).
+  simpl. eexists. reflexivity.
 Qed.
 
 Print Assumptions C03_plans_complete.
@@ -306,3 +385,4 @@ Print Assumptions C03_uniform_floor_refuted.
 Print Assumptions C03_invert_partial.
 Print Assumptions C03_grading_inverted.
 Print Assumptions C03_reject.
+Print Assumptions C03_source_is_model.
